@@ -1,5 +1,5 @@
 //verif:dir x/nodes/keeper
-//verif:for C19,C21,C22,C23,C24,C25,C18,C12,C26
+//verif:for C19,C21,C22,C23,C24,C25,C18,C12,C26,C27,C14
 //go:build verifnative
 
 package keeper
